@@ -79,10 +79,10 @@ def key_series(kind, keys, n, name):
         return pd.Series(pd.Categorical(vals, categories=[10, 20, 30, 40]), name=name)
 
 
-def key_text(kind, v):
-    """the path segment the writer is expected to use for a key value"""
+def key_text(scheme, v):
+    """the path segment used for a key value: hive uses ISO format for timestamps, drill the plain text"""
     import pandas as pd
-    if isinstance(v, pd.Timestamp):
+    if isinstance(v, pd.Timestamp) and scheme == "hive":
         return v.isoformat()
     return str(v)
 
@@ -124,7 +124,7 @@ def run(p):
             if len(set(map(repr, sub))) == len(sub) and sub not in subsets1:
                 subsets1.append(sub)
     pool2 = key_pool(k2) if k2 else None
-    valkinds = ["int64", "str_obj", "float64", "cat_str", "Int64", "dt_ns"] if thorough else ["int64", "str_obj", "cat_str"]
+    valkinds = ["int64", "str_obj", "float64", "cat_str", "Int64", "dt_ns"] if thorough else ["int64", "cat_str"]
     d = scratch()
     for sub1 in subsets1:
         for prog in ("cycle", "blocks", "late"):
@@ -138,10 +138,12 @@ def run(p):
             if k2:
                 sub2 = pool2[:2]
                 a2 = [sub2[(i // 2) % len(sub2)] for i in range(n)] if prog != "late" else [sub2[0]] * 5 + [sub2[-1]]
-            for rgo in (None, 2, [0, 3]):
+            for rgo in ((None, 2, [0, 3]) if thorough else (None, [0, 3])):
                 for vk in valkinds:
                     for nullkeys in (False, True):
                         if nullkeys and k1 in ("int", "bool"):
+                            continue
+                        if not thorough and ((nullkeys and prog != "cycle") or (vk != "int64" and rgo is not None)):
                             continue
                         ctx.clear()
                         ctx.update({"card": len(sub1), "prog": prog, "nullkeys": nullkeys})
@@ -170,8 +172,8 @@ def run(p):
                         datasets += 1
                         keep = df[df[parts].notnull().all(axis=1)]
                         exp_rows = {}
-                        for _, r in keep.iterrows():
-                            exp_rows[int(r["rid"])] = tuple(canon_key(r[c]) for c in parts)
+                        for i in range(len(keep)):
+                            exp_rows[int(keep["rid"].iloc[i])] = tuple(canon_key(keep[c].iloc[i]) for c in parts)
                         expval = dict(zip(O.series_to_list(keep["rid"]), O.series_to_list(keep["val"])))
                         # (2) read back
                         try:
@@ -202,8 +204,15 @@ def run(p):
                                 e = exp_rows[r][ci]
                                 if scheme == "drill":
                                     # value-only layout: the directory level carries the key text (possibly re-typed by parsing)
-                                    et = key_text(kind, keep.loc[keep["rid"] == r, parts[ci]].iloc[0])
-                                    if str(g) != et and not O.same_value(g, e):
+                                    et = key_text(scheme, keep.loc[keep["rid"] == r, parts[ci]].iloc[0])
+                                    coerced = False
+                                    if isinstance(g, tuple) and g[0] == "ts":
+                                        # documented: drill directory names are coerced to numbers / dates when they parse
+                                        try:
+                                            coerced = pd.Timestamp(et).value == g[1]
+                                        except Exception:
+                                            coerced = False
+                                    if str(g) != et and not O.same_value(g, e) and not coerced:
                                         bad("partition_value", "%s: %s of row %d is %r, directory text %r" % (what, c, r, g, et), col=ci, pk=kind)
                                         break
                                 else:
@@ -227,9 +236,9 @@ def run(p):
                                     if r not in exp_rows:
                                         bad("placement", "%s: row %d with a null key is stored in %s" % (what, r, rel))
                                         continue
-                                    row = keep.loc[keep["rid"] == r].iloc[0]
-                                    want = [("%s=%s" % (c, key_text(None, row[c]))) if scheme == "hive" else key_text(None, row[c])
-                                            for c in parts]
+                                    sel = keep["rid"] == r
+                                    want = [("%s=%s" % (c, key_text(scheme, keep.loc[sel, c].iloc[0]))) if scheme == "hive"
+                                            else key_text(scheme, keep.loc[sel, c].iloc[0]) for c in parts]
                                     if segs != want:
                                         bad("placement", "%s: row %d lies in %r, its keys name %r" % (what, r, segs, want))
                         # (3) cats
